@@ -242,7 +242,7 @@ func checkReserve(c *core.Ctx, l *core.Ledger) {
 			return true
 		}
 		cal := call.Call.StaticCallee()
-		return cal != nil && (cal.Name() == "Reserve" || cal.Name() == "recordGenDeclNames")
+		return cal != nil && c.Named(cal, "Reserve", "recordGenDeclNames")
 	}
 	for i, s := range sites {
 		key := fmt.Sprintf("%s:append-decl#%d", core.SSAName(s.f), i+1)
